@@ -34,6 +34,8 @@ Example retry_rules_are :
     "compassHandoverAttester: no-retry" ]%string.
 Proof. reflexivity. Qed.
 Example max_retries_is : max_retries = 2. Proof. reflexivity. Qed.
+(** the score cache of msgAssigner never persists (value receiver): every pick ranks afresh, as [pick] does *)
+Example pick_receiver_is_value : Gen.C14.msg_assigner_pick_receiver = "value"%string. Proof. reflexivity. Qed.
 
 (** Every production call that puts a message into a turnstone queue takes Assignee and
     AssigneeRemoteAddress from results 0 and 1 of one PickValidatorForMessage call whose error is
@@ -350,6 +352,46 @@ Proof.
   assert (m1' = m1) by (eapply sorted_unique; eauto; congruence). subst m1'. auto.
 Qed.
 
+(** the record written next to the assignee (remote address, kind, retries, turnstone id) is permanent too *)
+Lemma do_request_meta ch k retries turn ts s id :
+  id <= next_id (sy_q s) -> meta_of (do_request ch k retries turn ts s) id = meta_of s id.
+Proof.
+  intros Hle. unfold do_request. destruct (pick_now ch (sy_tables s) k ts) as [v remote| |]; auto.
+  assert (Hput : forall s0, next_id (sy_q s0) = next_id (sy_q s) -> meta_of s0 id = meta_of s id ->
+            meta_of (put_assigned k retries turn v remote s0) id = meta_of s id).
+  { intros s0 En Em. rewrite meta_of_put, En.
+    destruct (next_id (sy_q s) + 1 =? id) eqn:E; [apply Z.eqb_eq in E; lia | exact Em]. }
+  destruct k as [sd mv| | | |vid]; try (apply Hput; reflexivity).
+  destruct (valset_scan _ _ _ _ _) as [del put]. destruct put; [apply Hput; reflexivity | reflexivity].
+Qed.
+
+Lemma sstep_meta ch s o id : id <= next_id (sy_q s) -> meta_of (sstep ch s o) id = meta_of s id.
+Proof.
+  intros Hle. destruct o as [t|k turn ts|i g| |i|i|i|i ts]; cbn [sstep]; try reflexivity.
+  - apply do_request_meta; auto.
+  - destruct (find _ _); [|reflexivity]. destruct (meta_of s i) as [me|]; [|reflexivity].
+    destruct (retryable (me_kind me) && (me_retries me <? max_retries)); [|reflexivity].
+    destruct (pick_now ch (sy_tables s) (me_kind me) ts); try reflexivity;
+      (rewrite do_request_meta; [reflexivity | simpl; exact Hle]).
+Qed.
+
+Lemma sys_meta_fixed ch ops1 ops2 id :
+  id <= next_id (sy_q (srun ch ops1)) -> meta_of (srun ch (ops1 ++ ops2)) id = meta_of (srun ch ops1) id.
+Proof.
+  intros Hle. induction ops2 as [|o ops2 IH] using rev_ind; [rewrite app_nil_r; reflexivity|].
+  rewrite app_assoc, srun_snoc. rewrite sstep_meta; [exact IH|].
+  destruct (sys_trace ch ops1 ops2) as [Hn _]. lia.
+Qed.
+
+Lemma sys_record_fixed ch ops1 ops2 m1 m2 :
+  In m1 (queue (sy_q (srun ch ops1))) -> In m2 (queue (sy_q (srun ch (ops1 ++ ops2)))) -> mid m1 = mid m2 ->
+  massignee m1 = massignee m2 /\ mkind m1 = mkind m2 /\
+  meta_of (srun ch (ops1 ++ ops2)) (mid m2) = meta_of (srun ch ops1) (mid m1).
+Proof.
+  intros H1 H2 E. destruct (sys_assignee_fixed ch ops1 ops2 m1 m2 H1 H2 E) as [Ea Ek]. repeat split; auto.
+  rewrite <- E. apply sys_meta_fixed. destruct (srun_sinv ch ops1) as [[_ Hb] _]. auto.
+Qed.
+
 (** ---- 3. the offer reads the queue only ---- *)
 Lemma sys_sorted ch ops : sorted (queue (sy_q (srun ch ops))).
 Proof. destruct (srun_sinv ch ops) as [[Hs _] _]. exact Hs. Qed.
@@ -591,7 +633,7 @@ Example departed_assignee_not_picked_again :
   = [(1, 0); (2, 1)].
 Proof. vm_compute. reflexivity. Qed.
 
-(** retry: the error proof on message 1 (assigned to 0, fees 23100 attached) re-enqueues it as
+(** retry: the error proof on message 1 (assigned to 0, fees 21000 = 1.0 x 21000 attached) re-enqueues it as
     message 2 for validator 1 — picked on the tables of that moment — without estimate or fees;
     after its own election it carries validator 1's price (2.0 x 21000). *)
 Definition retry_ops : list sop := dep_ops ++ [SAttestError 1 1700000000].
